@@ -104,8 +104,37 @@ def handleTS (n : Nat) (arcs : List Arc) (b : List Int) (impls : List (Option (L
     let o := J.ssp n (n + 1) d
     replyMinCost I o.status (o.x.take I.m) o.cost (o.pot.take n) (o.reach.filter (· < n)) o.iters o.cancel impls
 
+/-! request `["assign", n, m, rows, implAssign|null, implObjective|null]`  (solve_assignment)
+reply `[status, cost, assignment, iters, cert, implChecks|null]`
+  the network `assignInst n m C` in its fixed numbering, solved by `ssp`; cert = `chkMinCost`;
+  assignment = the model's optimal assignment read off its flow;
+  implChecks = `[chkAssign n m a, assignCost (aOf a), assignCost (aOf a) == objective]` -/
+def handleAssign (n m : Nat) (rows : List (List Int)) (impl : Option (List Int)) (obj : Option Int) : String :=
+  let C := matEntry rows
+  let I := assignInst n m C
+  let o := I.ssp 0 1 ((min n m : Nat) : Int)
+  let cert := match o.status with
+    | .feasible => I.chkMinCost o.x o.pot o.cost
+    | _ => false
+  -- arcs n + i*m + j are the row-to-column arcs
+  let asg : List Int := (List.range n).map fun i =>
+    match (List.range m).find? (fun j => Inst.fl o.x (n + i * m + j) == 1) with
+    | some j => (j : Int)
+    | none => -1
+  let ichk := match impl, obj with
+    | some a, some v =>
+      Val.arr [Val.bool (chkAssign n m a), Val.int (assignCost n C (aOf a)), Val.bool (assignCost n C (aOf a) == v)]
+    | _, _ => Val.null
+  let sname := match o.status with
+    | .feasible => "feasible" | .infeasible => "infeasible" | .negcycle => "negcycle"
+  (Val.arr [Val.str sname, Val.int o.cost, Val.ofInts asg, Val.int o.iters, Val.bool cert, ichk]).render
+
 def handle (line : String) : String :=
   match request line with
+  | some ("assign", [n, m, rows, impl, obj]) =>
+    match n.toNat?, m.toNat?, rows.toIntss?, impl.toOpt? Val.toInts?, obj.toOpt? Val.toInt? with
+    | some n, some m, some rows, some impl, some obj => handleAssign n m rows impl obj
+    | _, _, _, _, _ => err "bad arguments"
   | some ("mcf_st", [n, arcs, s, t, d, impls]) =>
     match n.toNat?, toArcs4? arcs, s.toNat?, t.toNat?, d.toInt?, toImpls? impls with
     | some n, some arcs, some s, some t, some d, some impls =>
